@@ -24,12 +24,13 @@ from common import c_Q, c_bool, c_list, c_opt, c_str, c_Z
 from golem.core.dag.graph import ReconnectType
 from golem.core.dag.linked_graph import LinkedGraph
 from golem.core.log import default_log
+from golem.core.optimisers.genetic.operators.base_mutations import MutationStrengthEnum, MutationTypesEnum
 from golem.core.optimisers.fitness import MultiObjFitness, SingleObjFitness
 from golem.core.optimisers.graph import OptGraph, OptNode
 from golem.core.optimisers.opt_history_objects.individual import Individual
 from golem.core.optimisers.opt_history_objects.parent_operator import ParentOperator
 from golem.serializers.serializer import Serializer
-from golem.utilities.data_structures import UniqueList
+from golem.utilities.data_structures import ComparableEnum, UniqueList
 
 REQ = ['Serial.GraphCodec']
 
@@ -104,6 +105,11 @@ def canon_value(v):
         return {k: canon_value(x) for k, x in v.items()}
     if isinstance(v, (list, tuple)):
         return type(v)(canon_value(x) for x in v)
+    if isinstance(v, enum.Enum) and not isinstance(v, str):
+        # round 8: an enum member (ComparableEnum: metadata, ParentOperator.operators, node params) is shown to the
+        # model as the JSON object its coder is specified to write - the member's VALUE and the class path, both
+        # computed here from the member itself (not taken from the implementation's output)
+        return {'value': canon_value(v.value), '_class_path': '%s/%s' % (type(v).__module__, type(v).__qualname__)}
     t = tok(v)
     return v if t is None else t
 
@@ -229,6 +235,39 @@ class C11Shown(str):
         return 'shown:' + self[:]
 
 
+class C11Level(ComparableEnum):
+    """a user enum whose values (int / dyadic float / str) all differ from the member names"""
+    low = 1
+    half = 0.5
+    high = 'HI'
+
+
+class C11Swap(ComparableEnum):
+    """every member's name is the VALUE of the other member"""
+    first = 'second'
+    second = 'first'
+
+
+ENUMS = {'strength': MutationStrengthEnum, 'mtype': MutationTypesEnum, 'level': C11Level, 'swap': C11Swap}
+MEMBERS = [['strength', 'weak'], ['strength', 'mean'], ['strength', 'strong'], ['mtype', 'simple'], ['mtype', 'single_add'],
+           ['level', 'low'], ['level', 'half'], ['level', 'high'], ['swap', 'first'], ['swap', 'second']]
+
+
+def materialise_enums(v):
+    """enum members are kept in the (JSON) specs as {'$member': [enum key, member name]}"""
+    if isinstance(v, dict):
+        if list(v) == ['$member']:
+            return ENUMS[v['$member'][0]][v['$member'][1]]
+        return {k: materialise_enums(x) for k, x in v.items()}
+    if isinstance(v, (list, tuple)):
+        return type(v)(materialise_enums(x) for x in v)
+    return v
+
+
+def has_member(v):
+    return '"$member"' in json.dumps(v)
+
+
 def materialise_name(v):
     """names that JSON cannot carry are kept in the specs as one-key dicts"""
     if isinstance(v, dict) and len(v) == 1:
@@ -246,6 +285,8 @@ def materialise_content(content):
     c = copy.deepcopy(content)
     if 'name' in c:
         c['name'] = materialise_name(c['name'])
+    if 'params' in c:
+        c['params'] = materialise_enums(c['params'])
     return c
 
 
@@ -779,7 +820,7 @@ def build_individual(spec):
     if f is not None:
         kw['fitness'] = f
     if spec['metadata'] is not None:
-        kw['metadata'] = copy.deepcopy(spec['metadata'])
+        kw['metadata'] = materialise_enums(copy.deepcopy(spec['metadata']))
     if spec['native'] is not None:
         kw['native_generation'] = spec['native']
     parents = []
@@ -789,7 +830,7 @@ def build_individual(spec):
             if pu not in by_uid:
                 by_uid[pu] = Individual(OptGraph(OptNode('p')), uid=pu, native_generation=0)
             parents.append(by_uid[pu])
-        ops = spec['pop']['operators']
+        ops = materialise_enums(spec['pop']['operators'])
         kw['parent_operator'] = ParentOperator(spec['pop']['type'], ops if len(ops) != 1 else ops[0], parents)
     ind = Individual(graph, uid=spec['uid'], **kw)
     return ind, objs, parents
@@ -831,7 +872,7 @@ def rec_pop(po):
             ps.append(('L', p.uid))
         else:
             return None
-    return (po.type_, seq_kind(po.operators), copy.deepcopy(list(po.operators)), seq_kind(po.parent_individuals), ps, po.uid)
+    return (po.type_, seq_kind(po.operators), canon_value(copy.deepcopy(list(po.operators))), seq_kind(po.parent_individuals), ps, po.uid)
 
 
 def rec_individual(ind):
@@ -1029,6 +1070,28 @@ def gen_ind_specs(ctx):
                     'graph': {'kind': 'opt', 'nodes': nodes, 'order': order},
                     'fitness': fit, 'metadata': copy.deepcopy(rng.choice(METADATA)),
                     'native': rng.choice([None, 0, 1, 17]), 'pop': pop})
+    # round 8: enum members (GOLEM's own ComparableEnum types and user ones; names equal to / different from the
+    # values, numeric values, a name that is another member's value) in metadata, ParentOperator.operators, node params
+    def member():
+        return {'$member': list(rng.choice(MEMBERS))}
+    for j, base in enumerate(MEMBERS + [rng.choice(MEMBERS) for _ in range(ctx.budget(20, 150))]):
+        i = n_ind + j
+        m = {'$member': list(base)}
+        where = j % 4
+        content = {'name': rng.choice(NAMES)}
+        if where in (2, 3):
+            content['params'] = {'strength': m, 'grid': [member(), 2, {'deep': member()}]} if j % 8 < 4 else {'op': m}
+        nodes = [{'uid': 'n0', 'content': content, 'parents': []},
+                 {'uid': 'n1', 'content': make_content(rng, 'str'), 'parents': [0]}]
+        metadata = ({'kind': m, 'note': 'x'} if where == 0 else {'k': [member(), {'a': m}], 'n': 3} if where == 3
+                    else rng.choice([None, {}, {'n': 3}]))
+        pop = None
+        if where in (1, 3):
+            pop = {'type': 'mutation', 'operators': [m] if j % 8 < 4 else [member(), 'simple', m],
+                   'parents': ['par-%d-a' % i]}
+        out.append({'uid': 'ind-%d' % i, 'graph': {'kind': 'opt', 'nodes': nodes, 'order': [1, 0]},
+                    'fitness': ('S', [rng.choice(DY)]) if j % 2 else None, 'metadata': metadata,
+                    'native': rng.choice([None, 0, 1]), 'pop': pop})
     return out
 
 
@@ -1057,6 +1120,8 @@ def run_individuals(ctx):
                   nonfinite_fitness=(f is not None and any(tok(x) is not None for x in f[1])),
                   nonfinite_metadata=('penalty' in (spec['metadata'] or {})),
                   n_parents=len((spec['pop'] or {}).get('parents', [])), metadata=bool(spec['metadata']),
+                  enum_member=('metadata' if has_member(spec['metadata']) else 'operators' if has_member(spec['pop'])
+                               else 'params' if has_member(spec['graph']) else 'none'),
                   repeated_parent=(len(set((spec['pop'] or {}).get('parents', [])))
                                    != len((spec['pop'] or {}).get('parents', []))))
         case = {'group': 'individuals', 'spec': spec}
